@@ -526,7 +526,7 @@ def common_root():
 def stages(tier):
     q = tier == "quick"
     return [
-        HypStage("heap", heap_case, examples=1500 if q else 8000, shards=8 if q else 16),
+        HypStage("heap", heap_case, examples=1500 if q else 20000, shards=8 if q else 16),
         HypStage("reconfigure", reconf_case, examples=400 if q else 3000, shards=1 if q else 2),
-        HypStage("shapes", shapes_case, examples=400 if q else 3000, shards=4 if q else 8),
+        HypStage("shapes", shapes_case, examples=400 if q else 8000, shards=4 if q else 8),
     ]
